@@ -97,6 +97,22 @@ def good_line(kind, tag, text, ascii_only=False, spaced=False):
     return {"raw": s.encode("utf-8"), "label": ("good", full_tag(tag, canon_obj(obj)), kind == "notif"), "kind": kind}
 
 
+# Well-formed lines whose JSON text the FAST decoder (orjson) refuses and only the stdlib fallback of fast_json.loads
+# accepts: legal RFC 8259 JSON all the same, so they must be delivered like any other line.
+RAW_GOOD = {
+    "lone-surrogate-escape": b'{"jsonrpc":"2.0","id":"m%d","result":{"s":"\\ud83d"}}',
+    "huge-exponent": b'{"jsonrpc":"2.0","id":"m%d","result":{"n":1e400,"m":-1E+400}}',
+    "lone-surrogate-escape-notif": b'{"jsonrpc":"2.0","method":"notifications/x","params":{"k":%d,"s":"\\udfff x"}}',
+}
+
+
+def good_raw(name, tag):
+    raw = RAW_GOOD[name] % tag
+    obj = json.loads(raw.decode("utf-8"))            # the stdlib decoder: the reference reading of the line
+    return {"raw": raw, "label": ("good", full_tag(tag, canon_obj(obj)), "method" in obj and "id" not in obj),
+            "kind": "good-raw:" + name}
+
+
 JUNK = {
     "not-json": b"hello world",
     "truncated": b'{"jsonrpc":"2.0","id":"m9",',
@@ -183,6 +199,9 @@ def small_streams():
     out.append(build_stream([junk_line("blank"), junk_line("blank"), g("req", "\\n")], [LF, CRLF, LF], tail=b"\r"))
     out.append(build_stream([g("res", "a b  c"), junk_line("two-messages-cr-separated")], [LF, CRLF]))
     out.append(build_stream([junk_line("two-messages-ls-separated"), g("res", "x y")], [LF, LF]))
+    out.append(build_stream([good_raw("lone-surrogate-escape", next(tag)), junk_line("scalar-int"),
+                             good_raw("huge-exponent", next(tag))], [LF, CRLF, LF]))
+    out.append(build_stream([good_raw("lone-surrogate-escape-notif", next(tag)), g("res", S_E)], [CRLF, LF]))
     return out
 
 
@@ -212,7 +231,10 @@ def random_stream(ctx, n_lines, tag0):
     tag = tag0
     for _ in range(n_lines):
         r = rng.random()
-        if r < 0.62:
+        if r < 0.04:
+            lines.append(good_raw(rng.choice(list(RAW_GOOD)), tag))
+            tag += 1
+        elif r < 0.62:
             text = "".join(rng.choice(TEXTS) for _ in range(rng.randrange(0, 4)))
             if rng.random() < 0.1:
                 text = text * rng.randrange(5, 40)
